@@ -41,11 +41,11 @@ func init() {
 }
 
 type c22Case struct {
-	Kind  string `json:"kind"`            // "corpus" | "generated" | "extension"
-	File  string `json:"file,omitempty"`  // corpus: path
-	Src   string `json:"src,omitempty"`   // extension: source text
-	Index int    `json:"index"`           // pre-order index of the node (corpus/extension) or generator index
-	Node  string `json:"node"`            // canonical dump of the node
+	Kind  string `json:"kind"`           // "corpus" | "generated" | "extension"
+	File  string `json:"file,omitempty"` // corpus: path
+	Src   string `json:"src,omitempty"`  // extension: source text
+	Index int    `json:"index"`          // pre-order index of the node (corpus/extension) or generator index
+	Node  string `json:"node"`           // canonical dump of the node
 	Rule  string `json:"rule"`
 }
 
@@ -246,10 +246,10 @@ func c22DiffClass(d string) string {
 }
 
 type c22Tally struct {
-	mu       sync.Mutex
-	posLost  map[string]int
-	types    map[string]int
-	illform  map[string]int
+	mu      sync.Mutex
+	posLost map[string]int
+	types   map[string]int
+	illform map[string]int
 }
 
 func (t *c22Tally) add(res *c22Result, tn string) {
